@@ -74,6 +74,8 @@ def run(chk):
     chk.build(["theories/Corr/C01.vo", "theories/Props/C01.vo"] + list(TY.BUILD_TARGETS))
     chk.props("theories/Props/C01.v", THEOREMS)
     chk.props(TY.PROPS_FILE, TY.THEOREMS)
+    if chk.tier == "thorough":
+        chk.coqchk(["Ford.Props.C01", "Ford.Props.C01types"])
     TY.run_part(chk)
     rng = chk.rng
     quick = chk.tier == "quick"
